@@ -963,7 +963,9 @@ func fieldVar(T types.Type, idx int) *types.Var {
 		T = p.Elem().Underlying()
 	}
 	if st, ok := T.(*types.Struct); ok && idx < st.NumFields() {
-		return st.Field(idx)
+		// the field of the generic declaration, not of the instantiation the method body sees
+		// (handlerStore[T] inside its own methods is an instance with its own field objects)
+		return st.Field(idx).Origin()
 	}
 	return nil
 }
